@@ -288,6 +288,8 @@ def other_inputs(rng, tier):
     add("snd:syn-ext16x1", "snd", c07.encode(c07.mk_spec(hdr=dict(ch=1, frames=12, bits=16), samples=pcm, rate=44100)), cuts=False)
     add("snd:syn-ext8x3", "snd", c07.encode(c07.mk_spec(hdr=dict(ch=3, frames=8, bits=8), samples=pcm)), cuts=False)
     add("snd:syn-ext12-raises", "snd", c07.encode(c07.mk_spec(hdr=dict(ch=2, frames=6, bits=12), samples=pcm)), cuts=False)
+    long16 = bytes((i * 5 + i // 253) % 256 for i in range(2 * 33000))        # > 32 768 frames / > 65 536 bytes: buffers that grow
+    add("snd:syn-ext16-long", "snd", c07.encode(c07.mk_spec(hdr=dict(ch=1, frames=33000, bits=16), samples=long16)), cuts=False)
     add("snd:syn-std", "snd", c07.encode(c07.mk_spec(samples=pcm, rate=11127)), cuts=False)
     add("snd:syn-std-fmt1", "snd", c07.encode(c07.mk_spec(fmt=1, dts=[b"\x00\x05\x00\x00\x00\x80"], samples=pcm[:7])), cuts=False)
     for p in sorted((T / "clut").glob("*/*.CLUT")):
@@ -423,6 +425,40 @@ def extra_stage(ctx, driver, stats):
                                         expected=base[last][:300], got=got[:300]))
             break
     stats["other_sequences_compared"] = compared
+    # a LONG history of distinct things: 300 bitmap decodes that each name another palette (cast-member numbers without CLUT data,
+    # unknown names), 300 sounds of distinct rates: a cache or table that saturates after N distinct entries (seeded change C13-m13:
+    # a memo capped at 256 names) shows only after such a history. Then every good input once more against its fresh-process result.
+    i8 = next((i for i in inputs if i[1] == "bitd" and i[3] and i[3][0].get("depth") == 8), None)
+    if i8 is not None:
+        for k in range(300):
+            cast = dict(i8[3][0], palette_txt=str(1000 + k))
+            run("bitd", i8[2], (cast, ""))
+    import c07 as _c07
+    for k in range(300):
+        run("snd", _c07.encode(_c07.mk_spec(samples=b"\x01\x02\x03", rate=3000 + k)), None)
+    long_cmp = 0
+    if i8 is not None:
+        # ... and bitmaps naming palettes that NO earlier call of this process has used (a saturated table treats new names differently)
+        late = [("bitd:late-%s" % nm, "bitd", i8[2], (dict(i8[3][0], palette_txt=nm), "")) for nm in
+                ("424242", "7", "pastels", "vivid", "NTSC", "metallic", "rainbow", "grayscale", "systemWinDir4", "systemWin", "never-heard-of")]
+        base_late = _fresh_process_results(late)
+        for it, b in zip(late, base_late):
+            got = run(it[1], it[2], it[3])
+            long_cmp += 1
+            if got != b:
+                cd = dict(kind="long-history", spec=dict(name=it[0]), lines=[], expect=[])
+                ctx.failures.append(Failure("D", cd, None, "result of %s after a history of 300 bitmaps with distinct palette names differs from the result in a fresh process" % it[0],
+                                            expected=b[:300], got=got[:300]))
+                break
+    for last in good:
+        got = run(inputs[last][1], inputs[last][2], inputs[last][3])
+        long_cmp += 1
+        if got != base[last]:
+            cd = dict(kind="long-history", spec=dict(name=inputs[last][0]), lines=[], expect=[])
+            ctx.failures.append(Failure("D", cd, None, "result of %s after a history of 300 bitmaps with distinct palette names and 300 distinct sounds differs from the result in a fresh process" % inputs[last][0],
+                                        expected=base[last][:300], got=got[:300]))
+            break
+    stats["long_history_compared"] = long_cmp
     # spot check: fresh decoder objects really behave like a fresh process for the bitmap pool
     P = [(nme, c) for nme, c, r in pool(__import__("random").Random(ctx.seed)) if r][:16 if ctx.tier == "quick" else 64]
     ins = [(nme, "bitd", c["data"], (dict(height=c["H"], width=c["W"], depth=c["depth"], w_padding=c["ox"], h_padding=c["oy"], palette_txt=c["pal"]), c["clut"].hex())) for nme, c in P]
